@@ -130,6 +130,10 @@ func worker() {
 			runtime.Gosched()
 		}
 	})
+	if wid%2 == 0 {
+		// a daemon-style process: descriptor 0 is free, so files opened next may land on it
+		os.Stdin.Close()
+	}
 	for words.Load(7) == 0 {
 		time.Sleep(200 * time.Microsecond)
 	}
@@ -517,7 +521,7 @@ func main() {
 		return
 	}
 	vlib.Main("C07", "exploration", 12*time.Minute, func(r *vlib.Run) {
-		r.Rule("schedules: rounds of P processes (2-6) x G goroutines (2-6) released together on F files; each client does K operations (Read via lockedfile.Read or Open+delayed ReadAll, Write of a unique payload, Transform to a unique payload, Transform whose function fails) with unique self-describing payloads of 24B..256KiB and seeded delays at the lockedfile hooks; each file's history (plus a final quiescent Read) is checked with porcupine against a register model; every fifth round has no blind Writes and is also checked by the chain checker; every fifth round writes empty contents too and starts half of its files empty (EMPTY is then an ordinary value of the register). faults: for 9 (quick) / 15 old/new length relations a dry run under strace lists the file operations of one Transform, then one run per (operation, errno), plus failing function and RLIMIT_FSIZE short writes. Non-trivial/distinct = per-file histories containing overlapping operations of different kinds + confirmed fault injections.")
+		r.Rule("schedules: rounds of P processes (2-6) x G goroutines (2-6) released together on F files (every second process with its standard input closed, so that files land on descriptor 0); each client does K operations (Read via lockedfile.Read or Open+delayed ReadAll, Write of a unique payload, Transform to a unique payload, Transform whose function fails) with unique self-describing payloads of 24B..256KiB and seeded delays at the lockedfile hooks; each file's history (plus a final quiescent Read) is checked with porcupine against a register model; every fifth round has no blind Writes and is also checked by the chain checker; every fifth round writes empty contents too and starts half of its files empty (EMPTY is then an ordinary value of the register). faults: for 9 (quick) / 15 old/new length relations a dry run under strace lists the file operations of one Transform, then one run per (operation, errno), plus failing function and RLIMIT_FSIZE short writes. Non-trivial/distinct = per-file histories containing overlapping operations of different kinds + confirmed fault injections.")
 		r.Assume("CLOCK_MONOTONIC is one clock for all processes of the machine; porcupine v1.3.0 decides linearizability of the recorded history (timeout => inconclusive)")
 		base := vlib.Scratch()
 		W := runtime.NumCPU()
